@@ -331,7 +331,15 @@ impl Property for C09 {
                 Op::Ticket { write, ns, nodes } => {
                     use iroh_tickets::Ticket as _;
                     let secret = iroh_docs::NamespaceSecret::from_bytes(&[*ns; 32]);
-                    let cap = if *write { Capability::Write(secret.clone()) } else { Capability::Read(secret.id()) };
+                    // a read capability is just 32 bytes of document id: every other one is taken as is (most
+                    // byte strings are not curve points; an id need not be one to be stored or shared)
+                    let cap = if *write {
+                        Capability::Write(secret.clone())
+                    } else if ns % 2 == 1 {
+                        Capability::Read(iroh_docs::NamespaceId::from(&[*ns; 32]))
+                    } else {
+                        Capability::Read(secret.id())
+                    };
                     // the capability's raw form
                     let (kind, raw) = cap.raw();
                     let cap_ok = Capability::from_raw(kind, &raw).map(|c| c.raw() == (kind, raw)).unwrap_or(false);
